@@ -276,7 +276,10 @@ func runC04(c *Ctx) {
 			if nOver > 0 && nMulti > 0 {
 				c.Nontrivial(jcs)
 			}
-			for _, x := range queries {
+			// the queries are asked in a different order for every check set (newest version first, levels mixed, ...), and then
+			// once more in the opposite order: what one evaluator runs for a level and version must not depend on what it was
+			// asked before
+			ask := func(x q) []int {
 				rs := ev.EvaluatePod(api.LevelVersion{Level: api.Level(x.level), Version: x.v}, &metav1.ObjectMeta{}, &corev1.PodSpec{})
 				marks := []int{}
 				for _, rr := range rs {
@@ -285,6 +288,22 @@ func runC04(c *Ctx) {
 					marks = append(marks, m)
 				}
 				c.Eval(1)
+				return marks
+			}
+			order := r.Perm(len(queries))
+			answers := make([][]int, len(queries))
+			for _, qi := range order {
+				answers[qi] = ask(queries[qi])
+			}
+			for k := len(order) - 1; k >= 0; k-- {
+				qi := order[k]
+				if again := ask(queries[qi]); canon(again) != canon(answers[qi]) {
+					c.Violate(Finding{Desc: fmt.Sprintf("level %s version %s runs %v when first asked and %v when asked again after other queries", queries[qi].level, queries[qi].v.String(), answers[qi], again), Key: "resolution-history", Input: jcs})
+					break
+				}
+			}
+			for qi, x := range queries {
+				marks := answers[qi]
 				ob.goRes = append(ob.goRes, marks)
 				if wf {
 					want := specGo(cs, x.level, x.v)
@@ -319,8 +338,9 @@ func runC04(c *Ctx) {
 // ---------------------------------------------------------------- C05
 
 var malformedVersions = []string{"", "Latest", "latest ", " latest", "latest\n", "v1", "v1.", "1.2", "v1.02", "v1.+3", "v1.-1", "v2.0", "v0.5", "v1.0x", "v1.1.1", "V1.5", "v1,5",
-	"v1.9223372036854775808", "v1.99999999999999999999", "v1.５", "v1. 5", "v1.5\n", "vv1.5", "v1.00", "v01.5", "v1.1e3", "v1.0x10"}
-var validVersions = []string{"latest", "v1.0", "v1.1", "v1.7", "v1.25", "v1.32", "v1.33", "v1.37", "v1.100", "v1.9223372036854775807", "v1.10", "v1.9"}
+	"v1.9223372036854775808", "v1.99999999999999999999", "v1.18446744073709551616", "v1.18446744073709551628", "v1.36893488147419103237", "v1.340282366920938463463374607431768211459", "v1.５", "v1. 5", "v1.5\n", "vv1.5", "v1.00", "v01.5", "v1.1e3", "v1.0x10"}
+var validVersions = []string{"latest", "v1.0", "v1.1", "v1.7", "v1.25", "v1.32", "v1.33", "v1.37", "v1.100", "v1.9223372036854775807", "v1.10", "v1.9",
+	"v1.2147483648", "v1.4294967296", "v1.4294967301", "v1.65536", "v1.256"} // values that wrap in narrower integers
 var malformedLevels = []string{"", "Baseline", "RESTRICTED", "baseline ", " baseline", "priv", "privileged\n", "restricted,baseline", "b", "none", "bäseline"}
 var validLevels = []string{"privileged", "baseline", "restricted"}
 
